@@ -157,7 +157,9 @@ func genC07(t *rapid.T) C07Case {
 			name = rapid.SampledFrom([]string{"ver", "v", "h", "li", "é", "日"}).Draw(t, "nname")
 		}
 		tok := name
-		if rapid.IntRange(0, 2).Draw(t, "nval") > 0 {
+		if rapid.IntRange(0, 19).Draw(t, "nempty") == 0 {
+			tok += "=" // -name= and --name= must mean the same, whatever that is
+		} else if rapid.IntRange(0, 2).Draw(t, "nval") > 0 {
 			var no *OptSpec
 			if k2, _ := resolve(lv, name); k2 != "" {
 				no = lv.Visible[k2].Spec
